@@ -112,6 +112,10 @@ def validate(ck, pid, scns, props, nproc=None, extra_ok=()):
             good.append((o["scn"], o["rows"]))
         elif "err" in o:
             ck.count("not_converged")
+            if s.get("must_solve"):
+                # a tiny well-posed network (reservoir - junction - junction) whose every step has a solution: a failure to
+                # converge there says that the model of the law is broken, not that the network is hard
+                ck.violation(pid + ".unsolved", "%s :: %s" % (s["must_solve"], o["err"][:80]), {"scn": s})
         else:
             # an exception out of run_sim means "this step could not be solved" (C16 decides whether it was signalled
             # properly); it is not a statement about the reported rows, so the other properties only count it -
